@@ -119,7 +119,8 @@ func main() {
 	o := output{
 		Harness: *harness, Params: pm, Paths: res.Paths, Assumed: res.Assumed, Decisions: res.Decisions,
 		Forced: res.Forced, Asserts: res.Asserts, Violations: res.Violations, Inconclusive: res.Inconclusive,
-		Samples: res.Samples, Queries: map[string]int{"sat": res.Sat, "unsat": res.Unsat, "unknown": res.Unknown, "total": res.Queries},
+		Samples: res.Samples, Queries: map[string]int{"sat": res.Sat, "unsat": res.Unsat, "unknown": res.Unknown, "total": res.Queries,
+			"valueset_sat": res.DomSat, "valueset_unsat": res.DomUnsat, "model_cache_sat": res.CacheSat},
 		SolverTimeS: res.SolverTime.Seconds(), WallS: res.Wall.Seconds(), LoadS: loadS,
 		Functions: eng.FunctionsEncoded(), Externs: eng.ExternsUsed(), Natives: eng.NativesUsed(), Inits: eng.InitsRun(),
 		Reached: eng.Reached(), MapRanges: res.MapRanges, MaxTrace: res.MaxTrace, Steps: res.Steps, Solver: *solver,
